@@ -23,6 +23,7 @@ import (
 	"sync"
 	"testing"
 	"testing/synctest"
+	"time"
 
 	"github.com/sanonone/kektordb/internal/verif/crashx"
 	"github.com/sanonone/kektordb/internal/verif/explore"
@@ -91,6 +92,11 @@ func newWorld(vectors bool, auto bool) func() (any, error) {
 		if !auto {
 			opts.AutoSaveInterval = 0
 			opts.AutoSaveThreshold = 0
+			opts.AofRewritePercentage = 0
+		} else {
+			// the background task snapshots as soon as it wakes up (1 s ticker) and anything is dirty
+			opts.AutoSaveInterval = time.Nanosecond
+			opts.AutoSaveThreshold = 1
 			opts.AofRewritePercentage = 0
 		}
 		e, err := engine.Open(opts)
@@ -222,7 +228,7 @@ func flusher(key string, sync bool) func(any) {
 			if item == "kv/pre" {
 				continue
 			}
-			if got, ok := have[item]; !ok || got != val {
+			if got, ok := have[item]; !ok || (got != val && !laterVersion(val, got)) {
 				if snap {
 					continue // may be covered by the snapshot; judged by the recovery oracle
 				}
@@ -240,6 +246,24 @@ func flusher(key string, sync bool) func(any) {
 			w.mu.Unlock()
 		}
 	}
+}
+
+// laterVersion reports whether got is a later value of the same overwritten item than val (the
+// overwriter's values are "<key>-<n>" with increasing n): a value journaled after the Flush was
+// invoked may legitimately be what the log holds for the item.
+func laterVersion(val, got string) bool {
+	i, j := strings.LastIndexByte(val, '-'), strings.LastIndexByte(got, '-')
+	if i < 0 || j < 0 || val[:i] != got[:j] {
+		return false
+	}
+	var a, b int
+	if _, err := fmt.Sscan(val[i+1:], &a); err != nil {
+		return false
+	}
+	if _, err := fmt.Sscan(got[j+1:], &b); err != nil {
+		return false
+	}
+	return b >= a
 }
 
 func fileExists(p string) bool { _, err := os.Stat(p); return err == nil }
@@ -640,6 +664,10 @@ func scenarios(thorough bool) []*explore.Scenario {
 			Threads: []explore.Thread{T("writer", jwriter(3)), T("snapshot", jsnapshotter)}},
 		{Name: "journal/snapshot-protocol-vs-close-vs-writer", Setup: newJWorld(false), Check: jcheck, Cleanup: jcleanup, Filter: schedFilter,
 			Threads: []explore.Thread{T("writer", jwriter(3)), T("snapshot", jsnapshotter), T("closer", jcloser)}},
+		{Name: "auto-snapshot-vs-writer", Setup: newWorld(false, true), Check: check, Cleanup: cleanup, Filter: schedFilter, MaxTicks: 1, TickStep: time.Second,
+			Threads: []explore.Thread{T("writer", kvWriter("w", 2))}},
+		{Name: "auto-snapshot-vs-overwriter-vs-flush", Setup: newWorld(false, true), Check: check, Cleanup: cleanup, Filter: schedFilter, MaxTicks: 1, TickStep: time.Second,
+			Threads: []explore.Thread{T("writer", kvOverwriter("k", 2)), T("flusher", flusher("f", false))}},
 		mk("periodic-flush-vs-writer", false, false, 2, T("writer", kvWriter("w", 2)), T("flusher", flusher("f", false))),
 	}
 	if thorough || os.Getenv("VERIF_SCENARIO") != "" {
@@ -694,13 +722,31 @@ func withOrders(in []*explore.Scenario, allOrders bool) []*explore.Scenario {
 			out = append(out, &c)
 		}
 	}
-	// every scenario also under the round-robin default scheduler
+	// every scenario also under the priority scheduler with demotion (see explore.Scenario.Demote)
 	n0 := len(out)
+	var both []*explore.Scenario
 	for i := 0; i < n0; i++ {
 		c := *out[i]
-		c.Name += "/rr"
-		c.RoundRobin = true
-		out = append(out, &c)
+		c.Name += "/pct"
+		c.Demote = true
+		// the declaration order is the initial priority order of the priority scheduler; under the
+		// run-until-blocked scheduler only the canonical order is explored
+		if !strings.Contains(out[i].Name, "/order") {
+			both = append(both, out[i])
+		}
+		both = append(both, &c)
+	}
+	out = both
+	if !allOrders {
+		// quick tier: the heaviest scenario (two administrative threads) only in its canonical order
+		var lean []*explore.Scenario
+		for _, sc := range out {
+			if strings.HasPrefix(sc.Name, "snapshot-vs-rewrite-vs-writer/order") {
+				continue
+			}
+			lean = append(lean, sc)
+		}
+		out = lean
 	}
 	if f := os.Getenv("VERIF_SCENARIO"); f != "" {
 		var sel []*explore.Scenario
@@ -715,9 +761,9 @@ func withOrders(in []*explore.Scenario, allOrders bool) []*explore.Scenario {
 }
 
 func run(c *vk.Ctx) {
-	bound := 3
+	bound := 2 // every scenario; thorough: 3, and 4 for two-thread scenarios
 	if c.Thorough() {
-		bound = 4
+		bound = 3
 	}
 	if v := os.Getenv("VERIF_BOUND"); v != "" {
 		fmt.Sscan(v, &bound)
@@ -761,14 +807,30 @@ func run(c *vk.Ctx) {
 	// iterative deviation bounding: everything with <= 1 deviation first (for every scenario), then
 	// <= 2, ... The bound completed for every scenario is reported; a deadline in the middle of a
 	// level leaves the previous level as the claim.
-	for b := 1; b <= bound && !c.TimeUp(); b++ {
-		for _, sc := range scenarios(c.Thorough()) {
-			if len(sc.Threads) >= 3 && b > bound-1 {
-				continue // three harness threads: one deviation less
+	sub := 4
+	if c.Thorough() {
+		sub = 8
+	}
+	maxB := bound
+	if c.Thorough() {
+		maxB = bound + 1
+	}
+	for b := 1; b <= maxB && !c.TimeUp(); b++ {
+		for si, sc := range scenarios(c.Thorough()) {
+			// work units: one scenario (x one of `sub` slices of its second-level subtrees) per
+			// shard process — an exploring process leaks memory with every engine instance it
+			// creates, so processes are kept short
+			mineUnit, slice, _ := c.Unit(si, sub)
+			if !mineUnit {
+				continue
 			}
+			if b > bound && len(sc.Threads) >= 3 {
+				continue // the extra level of the thorough tier is for two-thread scenarios
+			}
+			_ = si
 			seen := map[string]bool{}
 			finished := true
-			st := explore.Explore(sc, b, c.MineKey, func(x *explore.Exec) bool {
+			st := explore.Explore(sc, b, slice, func(x *explore.Exec) bool {
 				c.Eval(1)
 				c.Trans(int64(len(x.Points)))
 				c.State(1)
